@@ -12,7 +12,6 @@ package props
 // execution's observation is compared with a reference model computed from the text alone.
 
 import (
-	"runtime"
 	"bytes"
 	"encoding/json"
 	"errors"
@@ -20,6 +19,7 @@ import (
 	"io"
 	"os"
 	"path"
+	"runtime"
 	"sort"
 	"strings"
 	"time"
@@ -64,8 +64,8 @@ type graphCase struct {
 	Edges   [][]int           `json:"edges"`            // per file: indices of imported files (reference model)
 	Faults  map[string]string `json:"faults,omitempty"` // canonical file -> fault kind (C06)
 	Label   string            `json:"label"`
-	Extra   map[string]string `json:"extra,omitempty"` // explicit file contents (foreign cases)
-	Procs   int               `json:"procs,omitempty"` // GOMAXPROCS during the exploration (0 = the worker's own)
+	Extra   map[string]string `json:"extra,omitempty"`   // explicit file contents (foreign cases)
+	Procs   int               `json:"procs,omitempty"`   // GOMAXPROCS during the exploration (0 = the worker's own)
 	NoCheck bool              `json:"nocheck,omitempty"` // Settings.NoDifferentVersionCheck (the --no-different-version-check option)
 	Sep     string            `json:"sep,omitempty"`     // a line written between consecutive import statements
 }
